@@ -18,8 +18,20 @@ REGS = {"AX", "BX", "CX"}
 NOREC = [{"op": "nop", "d": "AX", "s": "AX", "v": 0, "to": 0}]
 
 
-def ins(op, d="AX", s="AX", v=0, to=0):
-    return {"op": op, "d": d, "s": s, "v": v, "to": to}
+def ins(op, d="AX", s="AX", v=0, to=0, w=4):
+    """w = operand width in bytes of the instruction (memory is the 4-byte lock word followed by 4 neighbour bytes)"""
+    return {"op": op, "d": d, "s": s, "v": v, "to": to, "w": w}
+
+
+WIDTH = {"B": 1, "W": 2, "L": 4, "Q": 8}
+
+
+def split_width(mn):
+    """MOVL -> ("MOV", 4); mnemonics without a width suffix -> (mn, 0)"""
+    for base in ("MOV", "XCHG", "TEST", "CMP", "DEC", "INC"):
+        if mn.startswith(base) and mn[len(base):] in WIDTH:
+            return base, WIDTH[mn[len(base):]]
+    return mn, 0
 
 
 def parse_operand(o):
@@ -84,6 +96,12 @@ def extract_asm(text):
             if o[0] == "unknown" and mn not in ("JNZ", "JNE", "JZ", "JE", "JEQ", "JMP"):
                 raise ValueError("operand not understood: " + line)
         kinds = tuple(o[0] for o in ops)
+        base, w = split_width(mn)
+
+        def small(n):
+            if not 0 <= n <= 3:
+                raise ValueError("immediate outside the modelled range 0..3: " + line)
+            return n
         if mn in ("PAUSE", "NOP") and not ops:
             i = ins("nop")
         elif mn == "RET" and not ops:
@@ -91,41 +109,37 @@ def extract_asm(text):
         elif mn == "MOVQ" and kinds == ("arg", "reg"):
             if ops[0][2] != 0:
                 raise ValueError("MOVQ of an argument that is not state+0(FP): " + line)
-            i = ins("ldstate", d=ops[1][1])
+            i = ins("ldstate", d=ops[1][1], w=8)
         elif mn == "MOVL" and kinds == ("arg", "reg"):
             if ops[0][2] != 8:
                 raise ValueError("MOVL of an argument that is not attemptsBeforeYielding+8(FP): " + line)
             i = ins("ldatt", d=ops[1][1])
         elif mn == "MOVQ" and kinds == ("yieldfn", "reg"):
-            i = ins("ldyield", d=ops[1][1])
-        elif mn in ("MOVL", "MOVQ") and kinds == ("imm", "reg"):
-            if not 0 <= ops[0][1] <= 3:
-                raise ValueError("immediate outside the modelled range 0..3: " + line)
-            i = ins("movi", d=ops[1][1], v=ops[0][1])
-        elif mn in ("MOVL", "MOVQ") and kinds == ("reg", "reg"):
-            i = ins("movr", d=ops[1][1], s=ops[0][1])
-        elif mn == "MOVL" and kinds == ("mem", "reg"):
-            i = ins("load", d=ops[1][1], s=ops[0][1])
-        elif mn == "MOVL" and kinds == ("reg", "mem"):
-            i = ins("store", d=ops[1][1], s=ops[0][1])
-        elif mn == "MOVL" and kinds == ("imm", "mem"):
-            if not 0 <= ops[0][1] <= 3:
-                raise ValueError("immediate outside the modelled range 0..3: " + line)
-            i = ins("storei", d=ops[1][1], v=ops[0][1])
-        elif mn == "XCHGL" and kinds == ("mem", "reg"):
-            i = ins("xchg", d=ops[1][1], s=ops[0][1])
-        elif mn == "XCHGL" and kinds == ("reg", "mem"):
-            i = ins("xchg", d=ops[0][1], s=ops[1][1])
-        elif mn in ("TESTL", "TESTQ") and kinds == ("reg", "reg") and ops[0][1] == ops[1][1]:
-            i = ins("test", d=ops[0][1])
-        elif mn in ("CMPL", "CMPQ") and kinds == ("reg", "imm"):
-            if not 0 <= ops[1][1] <= 3:
-                raise ValueError("immediate outside the modelled range 0..3: " + line)
-            i = ins("cmpi", d=ops[0][1], v=ops[1][1])
-        elif mn in ("DECL", "DECQ") and kinds == ("reg",):
-            i = ins("dec", d=ops[0][1])
-        elif mn in ("INCL", "INCQ") and kinds == ("reg",):
-            i = ins("inc", d=ops[0][1])
+            i = ins("ldyield", d=ops[1][1], w=8)
+        elif base == "MOV" and w in (4, 8) and kinds == ("imm", "reg"):
+            i = ins("movi", d=ops[1][1], v=small(ops[0][1]), w=w)
+        elif base == "MOV" and w in (4, 8) and kinds == ("reg", "reg"):
+            i = ins("movr", d=ops[1][1], s=ops[0][1], w=w)
+        elif base == "MOV" and w in (4, 8) and kinds == ("mem", "reg"):
+            i = ins("load", d=ops[1][1], s=ops[0][1], w=w)
+        elif base == "MOV" and w and kinds == ("reg", "mem"):
+            i = ins("store", d=ops[1][1], s=ops[0][1], w=w)
+        elif base == "MOV" and w and kinds == ("imm", "mem"):
+            i = ins("storei", d=ops[1][1], v=small(ops[0][1]), w=w)
+        elif base == "XCHG" and w in (4, 8) and kinds == ("mem", "reg"):
+            i = ins("xchg", d=ops[1][1], s=ops[0][1], w=w)
+        elif base == "XCHG" and w in (4, 8) and kinds == ("reg", "mem"):
+            i = ins("xchg", d=ops[0][1], s=ops[1][1], w=w)
+        elif base == "TEST" and w in (4, 8) and kinds == ("reg", "reg") and ops[0][1] == ops[1][1]:
+            i = ins("test", d=ops[0][1], w=w)
+        elif base == "CMP" and w in (4, 8) and kinds == ("reg", "imm"):
+            i = ins("cmpi", d=ops[0][1], v=small(ops[1][1]), w=w)
+        elif base == "CMP" and w and kinds == ("mem", "imm"):
+            i = ins("cmpm", s=ops[0][1], v=small(ops[1][1]), w=w)
+        elif base == "DEC" and w in (4, 8) and kinds == ("reg",):
+            i = ins("dec", d=ops[0][1], w=w)
+        elif base == "INC" and w in (4, 8) and kinds == ("reg",):
+            i = ins("inc", d=ops[0][1], w=w)
         elif mn in ("JNZ", "JNE"):
             i = ins("jnz", to=labels[parts[1].strip()])
         elif mn in ("JZ", "JE", "JEQ"):
@@ -135,7 +149,7 @@ def extract_asm(text):
         elif mn == "CALL" and kinds in (("mem",), ("reg",)):
             i = ins("call", s=ops[0][1])
         else:
-            raise ValueError("instruction outside the dictionary: " + line)
+            raise ValueError("instruction (or operand width) outside the dictionary: " + line)
         prog.append(i)
         listing.append("%2d  %s" % (k + 1, line))
     if not prog:
@@ -159,7 +173,7 @@ def func_body(src, name):
 
 
 # ---- a compiler for the three method bodies: statements over sync/atomic operations on l.state -------------
-TOKEN = re.compile(r"\s*(?:(\n)|([A-Za-z_][\w.]*)|(0x[0-9a-fA-F]+|\d+)|(==|!=|:=|&&|\|\||[(){},;&=!]))", re.S)
+TOKEN = re.compile(r"\s*(?:(\n)|([A-Za-z_][\w.]*)|(0x[0-9a-fA-F]+|\d+)|(==|!=|:=|&&|\|\||[(){},;&=!^]))", re.S)
 
 
 def tokenize(body):
@@ -216,7 +230,7 @@ class GoCompiler:
         return "L%d" % self.nlab
 
     def emit(self, op, d="AX", s="AX", v=0, to=0):
-        self.code.append({"op": op, "d": d, "s": s, "v": v, "to": to})
+        self.code.append({"op": op, "d": d, "s": s, "v": v, "to": to, "w": 4})
 
     def place(self, lab):
         self.code.append({"label": lab})
@@ -226,6 +240,16 @@ class GoCompiler:
         if not 0 <= n <= 3:
             raise ValueError("constant outside the modelled range 0..3: %d" % n)
         return n
+
+    def delta(self):
+        """second argument of atomic.AddUint32: a small constant or ^uint32(n) (= -(n+1))"""
+        if self.accept("^"):
+            self.take("id", "uint32")
+            self.take("p", "(")
+            n = self.num()
+            self.take("p", ")")
+            return -(n + 1)
+        return self.num()
 
     def lockaddr(self):
         self.take("p", "&")
@@ -248,6 +272,14 @@ class GoCompiler:
             self.lockaddr()
             self.take("p", ")")
             self.emit("gload", d="BX")
+            return "BX"
+        if name == "atomic.AddUint32":
+            self.take("p", "(")
+            self.lockaddr()
+            self.take("p", ",")
+            v = self.delta()
+            self.take("p", ")")
+            self.emit("gadd", d="BX", v=v)
             return "BX"
         if name == "l.state":
             self.emit("gload", d="BX")
@@ -287,7 +319,7 @@ class GoCompiler:
         return op == "=="
 
     def branch_if_false(self, sense, lab):
-        self.code.append({"op": "jnz" if sense else "jz", "d": "AX", "s": "AX", "v": 0, "to": lab})
+        self.code.append({"op": "jnz" if sense else "jz", "d": "AX", "s": "AX", "v": 0, "to": lab, "w": 4})
 
     def block(self):
         self.take("p", "{")
@@ -338,7 +370,7 @@ class GoCompiler:
             self.take("p", ")")
             self.emit("tail", v=min(n, 3))
             return
-        if tk[0] == "id" and tk[1] in ("atomic.SwapUint32", "atomic.CompareAndSwapUint32", "atomic.LoadUint32"):
+        if tk[0] == "id" and tk[1] in ("atomic.SwapUint32", "atomic.CompareAndSwapUint32", "atomic.LoadUint32", "atomic.AddUint32"):
             if tk[1] == "atomic.CompareAndSwapUint32":
                 self.cond()
             else:
@@ -364,7 +396,7 @@ class GoCompiler:
             self.branch_if_false(sense, l_else)
             self.block()
             if self.accept("else"):
-                self.code.append({"op": "jmp", "d": "AX", "s": "AX", "v": 0, "to": l_end})
+                self.code.append({"op": "jmp", "d": "AX", "s": "AX", "v": 0, "to": l_end, "w": 4})
                 self.place(l_else)
                 if self.peek() == ("id", "if"):
                     self.stmt()
@@ -443,7 +475,9 @@ def extract_go(src):
 
 def tla_rec(d):
     def val(v):
-        return '"%s"' % v if isinstance(v, str) else str(v)
+        if isinstance(v, str):
+            return '"%s"' % v
+        return str(v) if v >= 0 else "(0 - %d)" % -v
     return "[" + ", ".join("%s |-> %s" % (k, val(v)) for k, v in d.items()) + "]"
 
 
@@ -483,7 +517,8 @@ def extract(repo):
 
 def module(res, name="SpinProg"):
     lines = ["---- MODULE %s ----" % name,
-             "(* GENERATED by tools/asm2tla.py from kernel/sync/spinlock_amd64.s and spinlock.go - do not edit *)"]
+             "(* GENERATED by tools/asm2tla.py from kernel/sync/spinlock_amd64.s and spinlock.go - do not edit *)",
+             "EXTENDS Integers"]
     for l in res["listing"]:
         lines.append("\\* " + l)
     lines.append("ExtractedProg == <<\n  " + ",\n  ".join(tla_rec(i) for i in res["prog"]) + " >>")
